@@ -32,6 +32,7 @@ pub enum COp {
     Append(Vec<u8>, u64, Vec<u8>),
     Prepend(Vec<u8>, u64, Vec<u8>),
     Delta(bool, Vec<u8>, u64, u32, u64, u64), // incr?, key, header cas, expiration, delta, initial
+    Flush(u32),                               // delay (policy profile only)
 }
 
 impl COp {
@@ -47,11 +48,12 @@ impl COp {
             COp::Delta(i, k, hc, he, d, ini) => {
                 format!("{}:{}:{}:{}:{}:{}", if *i { "incr" } else { "decr" }, hex(k), hc, he, d, ini)
             }
+            COp::Flush(d) => format!("flush:{}", d),
         }
     }
     pub fn class(&self) -> &'static str {
         match self {
-            COp::Get(_) | COp::Set(..) | COp::Del(..) => "base",
+            COp::Get(_) | COp::Set(..) | COp::Del(..) | COp::Flush(_) => "base",
             COp::Add(..) => "add",
             COp::Replace(..) => "replace",
             COp::Append(..) | COp::Prepend(..) => "append",
@@ -60,7 +62,7 @@ impl COp {
     }
 }
 
-fn err_code(e: &CacheError) -> u16 {
+pub fn err_code(e: &CacheError) -> u16 {
     match e {
         CacheError::NotFound => 1,
         CacheError::KeyExists => 2,
@@ -77,7 +79,7 @@ fn err_code(e: &CacheError) -> u16 {
     }
 }
 
-fn field(dbg: &str, name: &str) -> u64 {
+pub fn field(dbg: &str, name: &str) -> u64 {
     let pat = format!("{}: ", name);
     let i = dbg.find(&pat).expect("field") + pat.len();
     let rest = &dbg[i..];
@@ -101,6 +103,21 @@ impl Sys {
 
     /// Execute one operation; the textual result is what the model prints.
     pub fn exec(&self, op: &COp) -> String {
+        exec_memc(&self.memc, op)
+    }
+}
+
+pub fn exec_memc(memc: &Arc<MemcStore>, op: &COp) -> String {
+    let this = MemcRef { memc: memc.clone() };
+    this.exec(op)
+}
+
+struct MemcRef {
+    memc: Arc<MemcStore>,
+}
+
+impl MemcRef {
+    fn exec(&self, op: &COp) -> String {
         let set_res = |r: Result<memcrs::cache::cache::SetStatus, CacheError>| match r {
             Ok(s) => format!("ok:{}", s.cas),
             Err(e) => format!("err:{}", err_code(&e)),
@@ -151,9 +168,15 @@ impl Sys {
                     format!("err:{}", f.status)
                 }
             }
+            COp::Flush(d) => {
+                self.memc.flush(CacheMetaData::new(0, 0, *d));
+                "ok".to_string()
+            }
         }
     }
+}
 
+impl Sys {
     pub fn dump(&self, out: &mut String) {
         let log: Arc<Mutex<Vec<(Vec<u8>, String)>>> = Arc::new(Mutex::new(Vec::new()));
         let l2 = log.clone();
@@ -185,30 +208,30 @@ impl Sys {
 // ------------------------------------------------------------------ scheduler
 
 thread_local! {
-    static TID: Cell<Option<usize>> = Cell::new(None);
+    pub static TID: Cell<Option<usize>> = Cell::new(None);
 }
 
 pub struct SchedState {
-    grant: Option<usize>,
-    waiting: Vec<bool>,
-    finished: Vec<bool>,
-    steps: Vec<(usize, &'static str)>,
+    pub grant: Option<usize>,
+    pub waiting: Vec<bool>,
+    pub finished: Vec<bool>,
+    pub steps: Vec<(usize, &'static str)>,
 }
 
 pub struct Sched {
-    st: Mutex<SchedState>,
-    cv: Condvar,
+    pub st: Mutex<SchedState>,
+    pub cv: Condvar,
 }
 
 impl Sched {
-    fn new(n: usize) -> Arc<Sched> {
+    pub fn new(n: usize) -> Arc<Sched> {
         Arc::new(Sched {
             st: Mutex::new(SchedState { grant: None, waiting: vec![false; n], finished: vec![false; n], steps: vec![] }),
             cv: Condvar::new(),
         })
     }
     /// called by worker i at a yield point: park until granted
-    fn yield_here(&self, i: usize, what: &'static str) {
+    pub fn yield_here(&self, i: usize, what: &'static str) {
         let mut st = self.st.lock().unwrap();
         st.waiting[i] = true;
         self.cv.notify_all();
@@ -219,7 +242,7 @@ impl Sched {
         st.waiting[i] = false;
         st.steps.push((i, what));
     }
-    fn finish(&self, i: usize) {
+    pub fn finish(&self, i: usize) {
         let mut st = self.st.lock().unwrap();
         st.finished[i] = true;
         self.cv.notify_all();
@@ -227,9 +250,11 @@ impl Sched {
 }
 
 pub const STEP_WATCHDOG: Duration = Duration::from_secs(10);
+/// no case of the generators needs more than a few hundred steps
+pub const MAX_STEPS: usize = 20_000;
 
 #[cfg(memcrs_verif)]
-fn install_hook(s: Option<Arc<Sched>>) {
+pub fn install_hook(s: Option<Arc<Sched>>) {
     match s {
         Some(s) => memcrs::verif::set_yield(Some(Arc::new(move |what: &'static str| {
             if let Some(i) = TID.with(|t| t.get()) {
@@ -240,7 +265,7 @@ fn install_hook(s: Option<Arc<Sched>>) {
     }
 }
 #[cfg(not(memcrs_verif))]
-fn install_hook(_s: Option<Arc<Sched>>) {}
+pub fn install_hook(_s: Option<Arc<Sched>>) {}
 
 pub struct ConcCase {
     pub id: String,
@@ -309,6 +334,12 @@ pub fn run_controlled(case: &ConcCase, choose: &mut dyn FnMut(&[usize]) -> usize
         }
         let runnable: Vec<usize> = (0..n).filter(|i| !st.finished[*i]).collect();
         if runnable.is_empty() {
+            break;
+        }
+        if order.len() >= MAX_STEPS {
+            // every step returns but the operations never end: a livelock
+            let who = order.last().copied().unwrap_or(0);
+            stuck = Some((who, format!("no end after {} steps: thread {} keeps taking steps", MAX_STEPS, who)));
             break;
         }
         let i = choose(&runnable);
@@ -461,6 +492,7 @@ pub fn parse_op(t: &str) -> COp {
         "prepend" => COp::Prepend(b(p[1]), n(p[2]), b(p[3])),
         "incr" => COp::Delta(true, b(p[1]), n(p[2]), n(p[3]) as u32, n(p[4]), n(p[5])),
         "decr" => COp::Delta(false, b(p[1]), n(p[2]), n(p[3]) as u32, n(p[4]), n(p[5])),
+        "flush" => COp::Flush(n(p[1]) as u32),
         _ => panic!("bad op {}", t),
     }
 }
@@ -696,6 +728,7 @@ pub fn run_sweep(seed: u64, cases: usize, monitor: &mut String) -> (u64, u64) {
         }
         let mut stuck = false;
         let mut last = 0usize;
+        let mut case_steps = 0usize;
         loop {
             let t0 = Instant::now();
             let mut st = sched.st.lock().unwrap();
@@ -720,6 +753,13 @@ pub fn run_sweep(seed: u64, cases: usize, monitor: &mut String) -> (u64, u64) {
             if runnable.is_empty() {
                 break;
             }
+            if case_steps >= MAX_STEPS {
+                let what: Vec<String> = st.steps.iter().rev().take(6).map(|(i, w)| format!("{}:{}", i, w)).collect();
+                let _ = writeln!(monitor, "STUCK sweep-{}-{} no_end_after_{}_steps_last_steps_{}", seed, c, MAX_STEPS, what.join(","));
+                stuck = true;
+                break;
+            }
+            case_steps += 1;
             last = runnable[rng.below(runnable.len() as u64) as usize];
             st.grant = Some(last);
             steps += 1;
@@ -777,3 +817,4 @@ pub fn run_stress(seed: u64, threads: usize, millis: u64, monitor: &mut String) 
     }
     ops.load(Ordering::Relaxed)
 }
+
